@@ -46,6 +46,9 @@ func genStep(p *Profile, cfg *Config) *rapid.Generator[[]Op] {
 			if rapid.IntRange(0, 2).Draw(t, "hasdl") == 0 {
 				op.DlMs = rapid.SampledFrom([]int{1, 5, 50, 1000}).Draw(t, "dlms")
 			}
+			if rapid.IntRange(0, 11).Draw(t, "expired") == 0 {
+				op.Exp = true
+			}
 			if p.Hostile {
 				if rapid.IntRange(0, 5).Draw(t, "hmsg") == 0 {
 					op.Msg = rapid.IntRange(1, 5).Draw(t, "msg")
